@@ -243,6 +243,10 @@ func (b *assignmentBuilder) createWithConverter(lhs, rhs bmodel.Node, converter 
 		if !ok {
 			return nil
 		}
+		if rhsNode.ReturnsError() {
+			// A getter returning (value, error) cannot be passed as the converter's argument.
+			return nil
+		}
 
 		argNode, ok := b.castNode(converter.ArgType(), rhsNode)
 		if !ok {
